@@ -69,12 +69,12 @@ def sh(cmd: list[str], cwd: Path | None = None, timeout: int = 3000, env: dict |
     return p.returncode, p.stdout
 
 
-def regen_tables() -> tuple[bool, str]:
-    """Run the translator. Returns (ok, message). A translator error is a broken obligation."""
+def regen_tables(tables: list[str] | None = None) -> tuple[bool, str]:
+    """Run the translator (all plugins, or the named ones). A translator error is a broken obligation."""
     gt = VERIF / 'harness' / 'gen_tables.py'
-    if not gt.exists():
-        return True, 'no translator yet'
-    rc, out = sh([sys.executable, str(gt)], cwd=VERIF, env={'PYTHONPATH': str(REPO / 'src')})
+    if not gt.exists() or tables == []:
+        return True, 'no table needed'
+    rc, out = sh([sys.executable, str(gt)] + (tables or []), cwd=VERIF, env={'PYTHONPATH': str(REPO / 'src')})
     return rc == 0, out
 
 
@@ -291,7 +291,7 @@ def run_check(prop: str, tier: str, seed: int, module: Any) -> int:
     t0 = time.time()
     log(f'== check {prop} tier={tier} seed={seed}')
     broken: list[str] = []  # broken proof obligations / translator
-    ok, msg = regen_tables()
+    ok, msg = regen_tables(getattr(module, 'TABLES', None))
     if not ok:
         broken.append('translator: ' + msg.strip().splitlines()[-1] if msg.strip() else 'translator failed')
         log('translator failed:\n' + msg)
